@@ -114,6 +114,12 @@ fn shallow_moc<C: Combo>(rng: &mut Rng) -> (u8, Vec<Range<u64>>) {
     // depths on both sides of the automatic narrowing thresholds of the FITS writer (5/6 and 13/14 for space)
     2 => (5 + rng.below(3) as u8).min(md),
     3 => (12 + rng.below(4) as u8).min(md),
+    // ... and of every quantity at every stored width: MAX_DEPTH of u16 / u32 for space (5, 13), time (13, 29)
+    // and frequency (11, 27), one below to two above
+    4 => {
+      let t = *rng.pick(&[5u8, 13, 29, 11, 27]);
+      (t - 1 + rng.below(4) as u8).min(md)
+    }
     _ => rng.below(4.min(md as u64) + 1) as u8,
   };
   let l = match rng.below(8) {
@@ -218,6 +224,39 @@ fn single<C: Combo>(sink: &mut Sink, rng: &mut Rng, n: usize, dir: &Path) {
   }
 }
 
+fn threshold_sweep<C: Combo>(sink: &mut Sink, rng: &mut Rng, dir: &Path, depths: &[u8]) {
+  let q = C::QNAME;
+  let tflag = match q { "hpx" => "smoc", "time" => "tmoc", _ => "fmoc" };
+  for &d in depths {
+    let mut l = random_moc_ranges::<C::T, C::Q>(rng, d, 4);
+    if l.is_empty() {
+      let u = cell_size::<C::T, C::Q>(d);
+      l = vec![u..2 * u, 5 * u..6 * u];
+    }
+    let m: RangeMOC<C::T, C::Q> = mk_moc(d, &l);
+    let pa = dir.join("sweep.ascii");
+    (&m).into_range_moc_iter().cells().cellranges().to_ascii_ivoa(None, false, fs::File::create(&pa).unwrap()).unwrap();
+    let pj = dir.join("sweep.json");
+    (&m).into_range_moc_iter().cells().to_json_aladin(None, fs::File::create(&pj).unwrap()).unwrap();
+    for (ifmt, ipath) in [("ascii", &pa), ("json", &pj)] {
+      for flags in [vec![], vec!["-p"]] {
+        let outp = dir.join("sweep_out.fits");
+        let _ = fs::remove_file(&outp);
+        let mut args: Vec<&str> = vec!["convert", "-f", ifmt, "-t", tflag, ipath.to_str().unwrap(), "fits"];
+        args.extend(flags.iter());
+        args.push(outp.to_str().unwrap());
+        let o = moc(&args, None);
+        let ans = if o.code == 0 { decode(&outp, "fits", q) } else { format!("exit {} {}", o.code, o.err.lines().next().unwrap_or("")) };
+        if o.code == 101 {
+          sink.impl_failures.push(format!("cli-panic: moc convert {}->fits on a valid {} MOC of depth {}: {}", ifmt, q, d, o.err.lines().next().unwrap_or("")));
+        }
+        sink.count(&format!("convert-narrowing-sweep:{}:{}", q, d));
+        sink.emit(&format!("cli_id {} {} {} {}", q, C::W, d, fmt_ranges(&l)), &ans, true);
+      }
+    }
+  }
+}
+
 fn expect_error(sink: &mut Sink, what: &str, o: &Out, outp: Option<&Path>) {
   sink.count(&format!("invalid:{}", what.split(':').next().unwrap_or("?")));
   if o.code == 101 || o.code < 0 {
@@ -268,6 +307,12 @@ pub fn run(sink: &mut Sink, rng: &mut Rng, thorough: bool, dir: &Path) {
   single::<F16>(sink, rng, n1, dir);
   single::<F32>(sink, rng, n1, dir);
   single::<F64>(sink, rng, n1, dir);
+
+  // Deterministic sweep of the automatic narrowing of the FITS writer: text input (decoded on 64 bits), FITS
+  // output without --force-u64, at every depth around MAX_DEPTH of u16 / u32 of each quantity.
+  threshold_sweep::<H64>(sink, rng, dir, &[4, 5, 6, 7, 12, 13, 14, 15, 29]);
+  threshold_sweep::<T64>(sink, rng, dir, &[12, 13, 14, 15, 28, 29, 30, 31, 61]);
+  threshold_sweep::<F64>(sink, rng, dir, &[10, 11, 12, 13, 14, 26, 27, 28, 29, 30, 59]);
 
   // NUNIQ (v1) inputs for space
   for _ in 0..(if thorough { 40 } else { 8 }) {
